@@ -34,6 +34,7 @@ import (
 	"runtime"
 	"runtime/debug"
 	"runtime/metrics"
+	"slices"
 	"sort"
 	"strconv"
 	"strings"
@@ -736,7 +737,8 @@ var c11MemGuardOnce sync.Once
 
 // c11StartMemGuard polls the size of the Go heap and calls onExceed once it
 // passes the limit (default 1 GiB). It is started after the set-up (whose
-// shard builders allocate large tables); a healthy case needs a few MiB. It
+// shard builders allocate large tables); healthy cases keep the heap below
+// 30 MiB. It
 // turns an allocation blow-up into a reported case with a stack instead of a
 // bare "fatal error: out of memory".
 func c11StartMemGuard(onExceed func(total uint64)) {
@@ -793,6 +795,14 @@ func c11StuckStacks() string {
 		out = append(out, g)
 		if len(out) == 3 {
 			break
+		}
+	}
+	if len(out) == 0 {
+		// nothing inside zoekt: show what is running instead
+		for _, g := range gs {
+			if len(out) < 6 && !strings.Contains(g, "c11StuckStacks") {
+				out = append(out, c11Trim(g, 900))
+			}
 		}
 	}
 	return strings.Join(out, "\n\n")
@@ -1342,10 +1352,14 @@ func FuzzVerifC11(f *testing.F) {
 	// A no-progress loop allocates until the machine is out of memory, and the
 	// driver applies no ulimit to fuzz workers (RLIMIT_AS set from inside makes
 	// the workers of the fuzzing engine fail to start): watch the heap instead.
-	c11StartMemGuard(func(total uint64) {
-		fmt.Fprintf(os.Stderr, "C11 memory blow-up: %d MiB\n%s\n", total>>20, c11StuckStacks())
-		os.Exit(3)
-	})
+	// Only in the workers - the heap of the coordinating process grows steadily
+	// by itself (about 10 MiB/s here) and runs no case.
+	if slices.Contains(os.Args, "-test.fuzzworker") {
+		c11StartMemGuard(func(total uint64) {
+			fmt.Fprintf(os.Stderr, "C11 memory blow-up: %d MiB\n%s\n", total>>20, c11StuckStacks())
+			os.Exit(3)
+		})
+	}
 	// The seeds are harmless on every tree (they change one bit of document
 	// content): a failing seed would not be written out as a crasher by the
 	// fuzzing engine, so the driver could not report it. Everything dangerous
